@@ -187,7 +187,11 @@ func InjectDefect(src *choice.Src, c *Cfg) (string, YMut) {
 		}
 		return cs[src.Draw("defect.svc", len(cs))]
 	}
-	switch k := src.Draw("defect.kind", 29); k {
+	k := src.Draw("defect.kind", 33)
+	if k >= 29 {
+		k = (k - 29) % 2 // dangling references meet the --ignore-missing-* flags: twice the weight
+	}
+	switch k {
 	case 0:
 		i := ensureSvc()
 		c.Services[i].Args = append(c.Services[i].Args, Arg{Kind: "svc", S: "ghost" + strconv.Itoa(src.Draw("ghost", 3))})
